@@ -1,3 +1,4 @@
 pub mod chunk;
 pub mod head;
 pub mod request;
+pub mod rfc3986;
